@@ -16,6 +16,7 @@ pub mod c10;
 pub mod c11;
 pub mod c12;
 pub mod c13;
+pub mod c15;
 pub mod c16;
 pub mod c17;
 pub mod c18;
@@ -37,6 +38,7 @@ pub fn n_cases(ctx: &Ctx) -> u64 {
         "C11" => c11::n_cases(ctx),
         "C12" => c12::n_cases(ctx),
         "C13" => c13::n_cases(ctx),
+        "C15" => c15::n_cases(ctx),
         "C16" => c16::n_cases(ctx),
         "C17" => c17::n_cases(ctx),
         "C18" => c18::n_cases(ctx),
@@ -61,6 +63,7 @@ pub fn run_case(ctx: &Ctx, idx: u64) -> Vec<CaseOut> {
         "C11" => c11::run_case(ctx, idx),
         "C12" => c12::run_case(ctx, idx),
         "C13" => c13::run_case(ctx, idx),
+        "C15" => c15::run_case(ctx, idx),
         "C16" => c16::run_case(ctx, idx),
         "C17" => c17::run_case(ctx, idx),
         "C18" => c18::run_case(ctx, idx),
@@ -73,6 +76,9 @@ pub fn run_case(ctx: &Ctx, idx: u64) -> Vec<CaseOut> {
 pub fn summary_extra(_ctx: &Ctx) -> Vec<(String, String)> {
     let mut v = vec![("counters".into(), crate::case::counters_json())];
     v.extend(crate::case::stats_extra());
+    if _ctx.prop == "C15" {
+        v.extend(c15::unsafe_site_counts());
+    }
     v
 }
 
